@@ -271,7 +271,7 @@ class Explorer:
         self.npaths = multiprocessing.Value("l", 0)
         self.nforks = multiprocessing.Value("l", 0)
         self.max_steps = 2_000_000
-        self.query_timeout_ms = int(os.environ.get("MIRSYM_QUERY_TIMEOUT_MS", "30000"))
+        self.query_timeout_ms = int(os.environ.get("MIRSYM_QUERY_TIMEOUT_MS", "10000"))
         self._out = None
         self._reset_path([])
         self.solver = None
